@@ -184,7 +184,7 @@ func TestRepoTexts(t *testing.T) {
 }
 
 func seed(f *testing.F) {
-	for _, s := range []string{"", "(", "'", "`", "~", "~@", "^", "^{}", "@", "$x", "«»", "«1»", "«foo»", ";; $a $b\n", "(+ 1 2)", "{:a 1}", "#{:a}", "\"a\\\"b\"", "¬a¬¬b¬", "¬", "\x00", "\xff", "[1 2", "(def a 1)", ";; $x 1\n\n(+ $x 1)", "^{:a 1} [1]", "(a . b)", "1.5e3", "0x", "«atom 1»", "{:a}", "`(~a ~@b)"} {
+	for _, s := range []string{"", "(", "'", "`", "~", "~@", "^", "^{}", "@", "$x", "«»", "«1»", "«foo»", ";; $a $b\n", "(+ 1 2)", "{:a 1}", "#{:a}", "\"a\\\"b\"", "¬a¬¬b¬", "¬", "\x00", "\xff", "[1 2", "(def a 1)", ";; $x 1\n\n(+ $x 1)", "^{:a 1} [1]", "(a . b)", "1.5e3", "0x", "«atom 1»", "{:a}", "`(~a ~@b)", ";; $MODULE m", ";; $MODULE m\n(+ 1 2)", ";; $x 1", "\"{\"", "\"}\"", "{\"\" 1}"} {
 		f.Add([]byte(s))
 	}
 	files, _ := filepath.Glob("/repo/tests/step*.mal")
